@@ -1531,7 +1531,9 @@ def main(tier, seed, replay=None):
 
     lap('3c multi-link')
     # 4. sensitivity: in-memory mutants of the driver must be rejected by the monitor
-    sub = words[::max(1, len(words) // (240 if tier == 'quick' else 1500))] + starts[::max(1, len(starts) // (90 if tier == 'quick' else 300))] + rnd[:2]
+    stride = max(1, len(words) // (240 if tier == 'quick' else 1500))
+    stride += stride % 3 == 0         # the three submission patterns (and ack tails) alternate in `words`
+    sub = words[::stride] + starts[::max(1, len(starts) // (90 if tier == 'quick' else 300))] + rnd[:2]
     sub += acks[::5] + stalls[::max(1, len(stalls) // 60)]
     sub += [sc for sc in restarts if sc['mode'] == 'sl' and sc['gen'][1]['neg1'] == 'A' and sc['gen'][1]['neg2'] != 'A'][:40]
     def _applicable(name):
